@@ -51,7 +51,10 @@ type InputVal struct {
 	Name  string `json:"name"`
 	U     uint64 `json:"u"`
 	Bytes []byte `json:"bytes,omitempty"`
+	Truncated bool `json:"truncated,omitempty"`
 }
+
+const modelByteCap = 4096
 
 type Violation struct {
 	Harness string     `json:"harness"`
@@ -74,6 +77,7 @@ type PathResult struct {
 	Steps      int
 	Decisions  int
 	Forks      int
+	IfConv     int
 	Queries    int
 	SolverTime time.Duration
 }
@@ -125,6 +129,7 @@ type Path struct {
 	onceDone   map[*Value]bool
 	lastTime   *Term
 	isInitPath bool
+	spec       bool
 }
 
 type obsRec struct {
@@ -162,12 +167,17 @@ func (p *Path) addPC(t *Term) {
 }
 
 // decide resolves a boolean term to a concrete branch, forking when both sides are feasible.
-func (p *Path) decide(c *Term) bool {
+func (p *Path) decide(c *Term) bool { return p.decideK(c, 0, false, false) }
+
+func (p *Path) decideK(c *Term, k uint64, hasK bool, knownSat bool) bool {
 	if c.Op == OpConst {
 		return c.C != 0
 	}
 	if c.W != 0 {
 		panic("decide on non-bool")
+	}
+	if p.spec {
+		panic(specAbort{})
 	}
 	p.res.Decisions++
 	n := len(p.trace)
@@ -187,24 +197,26 @@ func (p *Path) decide(c *Term) bool {
 		p.abort("unwind", "wall budget exhausted")
 	}
 	p.sol.SetTimeout(p.eng.cfg.FeasMs)
-	rT := p.sol.CheckWith(p.st, c)
-	if rT == Unsat {
-		// maybe the PC itself is infeasible; we find out lazily
-		p.trace = append(p.trace, Decision{B: false, Forced: true})
-		return false
+	if !knownSat {
+		rT := p.sol.CheckWith(p.st, c)
+		if rT == Unsat {
+			// maybe the PC itself is infeasible; we find out lazily
+			p.trace = append(p.trace, Decision{B: false, Forced: true, K: k, HasK: hasK})
+			return false
+		}
 	}
 	rF := p.sol.CheckWith(p.st, p.st.Not(c))
 	if rF == Unsat {
-		p.trace = append(p.trace, Decision{B: true, Forced: true})
+		p.trace = append(p.trace, Decision{B: true, Forced: true, K: k, HasK: hasK})
 		return true
 	}
 	// both feasible (or unknown): fork
 	alt := make([]Decision, n+1)
 	copy(alt, p.trace)
-	alt[n] = Decision{B: false}
+	alt[n] = Decision{B: false, K: k, HasK: hasK}
 	p.pending = append(p.pending, alt)
 	p.res.Forks++
-	p.trace = append(p.trace, Decision{B: true})
+	p.trace = append(p.trace, Decision{B: true, K: k, HasK: hasK})
 	p.addPC(c)
 	return true
 }
@@ -232,24 +244,56 @@ func (p *Path) feasible(c *Term) bool {
 	return p.sol.CheckWith(p.st, c) != Unsat
 }
 
-// concretize case-splits a 64-bit (or narrower) term over values lo..hi and returns the value taken on this path.
+// concretize case-splits a term over values 0..hi and returns the value taken on this path. Candidate values
+// come from solver models (recorded in the decision vector so that re-execution is deterministic).
 // If a value above hi is feasible, that is an unwinding failure.
 func (p *Path) concretize(v *Term, hi int, what string) int {
 	if v.Op == OpConst {
 		return int(sext64(v.C, v.W))
 	}
-	for k := 0; k <= hi; k++ {
-		if p.decide(p.st.Eq(v, p.st.BV(v.W, uint64(k)))) {
-			return k
+	if p.spec {
+		panic(specAbort{})
+	}
+	for iter := 0; ; iter++ {
+		if iter > hi+2 {
+			p.abort("unwind", "%s: too many candidate values (bound %d)", what, hi)
+		}
+		var k uint64
+		n := len(p.trace)
+		knownSat := false
+		if n < len(p.prefix) {
+			d := p.prefix[n]
+			if !d.HasK {
+				panic("concretize: decision vector out of sync")
+			}
+			k = d.K
+		} else {
+			p.sol.SetTimeout(p.eng.cfg.FeasMs)
+			p.sol.Push()
+			r := p.sol.Check()
+			if r == Unsat {
+				p.sol.Pop()
+				p.abort("infeasible", "path condition unsatisfiable")
+			}
+			if r == Unknown {
+				p.sol.Pop()
+				p.abort("unknown", "%s: solver unknown while concretising", what)
+			}
+			vals, err := p.sol.GetValues(p.st, []*Term{v})
+			p.sol.Pop()
+			if err != nil {
+				p.abort("unknown", "%s: %v", what, err)
+			}
+			k = vals[0]
+			knownSat = true
+		}
+		if sext64(k, v.W) < 0 || sext64(k, v.W) > int64(hi) {
+			p.abort("unwind", "%s: symbolic value %d exceeds bound %d", what, sext64(k, v.W), hi)
+		}
+		if p.decideK(p.st.Eq(v, p.st.BV(v.W, k)), k, true, knownSat) {
+			return int(k)
 		}
 	}
-	// all k in 0..hi refuted on this path: is anything else feasible?
-	p.sol.SetTimeout(p.eng.cfg.FeasMs)
-	if p.sol.CheckWith(p.st, p.st.True) == Unsat {
-		p.abort("infeasible", "path condition unsatisfiable")
-	}
-	p.abort("unwind", "%s: symbolic value exceeds bound %d", what, hi)
-	return 0
 }
 
 // ---- inputs ----
@@ -289,8 +333,12 @@ func (p *Path) model() ([]InputVal, *Model, error) {
 		m.Vars[in.T.Name] = vals[i]
 		if in.Arr != nil {
 			n := int(vals[i])
-			if n > in.Max {
+			if vals[i] > uint64(in.Max) {
 				n = in.Max
+			}
+			if n > modelByteCap {
+				n = modelByteCap
+				out[i].Truncated = true
 			}
 			out[i].Bytes = make([]byte, n)
 			for j := 0; j < n; j++ {
@@ -337,13 +385,7 @@ func (p *Path) doAssert(c *Term, id string, site string) {
 		p.assume(c)
 	case Sat:
 		// get the model under PC ∧ ¬c
-		p.sol.Push()
-		p.sol.Assert(p.st, p.st.Not(c))
-		var iv []InputVal
-		if p.sol.Check() == Sat {
-			iv, _, _ = p.model()
-		}
-		p.sol.Pop()
+		iv, _ := p.smallModel(p.st.Not(c))
 		p.res.Violations = append(p.res.Violations, Violation{Harness: p.harness, Kind: "assert", ID: id, Site: site, Inputs: iv, Events: append([]string(nil), p.res.Events...)})
 		// continue on the side where the assertion holds
 		if !p.feasible(c) {
@@ -374,12 +416,7 @@ func (p *Path) reportPanic(tp targetPanic) {
 		p.res.Unknowns = append(p.res.Unknowns, "panic feasibility: "+msg+" at "+tp.site)
 		return
 	}
-	p.sol.Push()
-	var iv []InputVal
-	if p.sol.Check() == Sat {
-		iv, _, _ = p.model()
-	}
-	p.sol.Pop()
+	iv, _ := p.smallModel(nil)
 	p.res.Outcome = "panic"
 	p.res.Msg = msg
 	p.res.Violations = append(p.res.Violations, Violation{Harness: p.harness, Kind: "panic", ID: "no-panic", Msg: msg, Site: tp.site, Inputs: iv, Events: append([]string(nil), p.res.Events...)})
@@ -529,3 +566,63 @@ func (p *Path) evalObserved(m *Model) {
 }
 
 func (p *Path) seqViewNoFork(v Value) seqView { return p.seqView(v) }
+
+
+// smallModel returns a model of PC ∧ extra, preferring one whose input buffers are short enough to replay natively.
+func (p *Path) smallModel(extra *Term) ([]InputVal, *Model) {
+	p.sol.SetTimeout(p.eng.cfg.ObligMs)
+	p.sol.Push()
+	defer p.sol.Pop()
+	if extra != nil {
+		p.sol.Assert(p.st, extra)
+	}
+	big := false
+	for _, in := range p.inputs {
+		if in.Arr != nil && in.Max > modelByteCap {
+			big = true
+		}
+	}
+	_ = big
+	anyArr := false
+	for _, in := range p.inputs {
+		if in.Arr != nil {
+			anyArr = true
+		}
+	}
+	for _, cap := range []uint64{8, 32, 256, modelByteCap} {
+		if !anyArr {
+			break
+		}
+		need := false
+		for _, in := range p.inputs {
+			if in.Arr != nil && uint64(in.Max) > cap {
+				need = true
+			}
+		}
+		if !need && cap != 8 {
+			break
+		}
+		p.sol.Push()
+		for _, in := range p.inputs {
+			if in.Arr != nil && uint64(in.Max) > cap {
+				p.sol.Assert(p.st, p.st.Cmp(OpUle, in.T, p.st.BV(64, cap)))
+			}
+		}
+		if p.sol.Check() == Sat {
+			iv, m, err := p.model()
+			p.sol.Pop()
+			if err == nil {
+				return iv, m
+			}
+			return nil, nil
+		}
+		p.sol.Pop()
+	}
+	if p.sol.Check() == Sat {
+		iv, m, err := p.model()
+		if err == nil {
+			return iv, m
+		}
+	}
+	return nil, nil
+}
